@@ -55,6 +55,9 @@ def _wrap(c):
     if dims == "tyx":
         data = np.stack([data, data + 100])
         kw["time"] = ["2020-01-01", "2020-01-02"]
+    elif dims == "t1yx":
+        data = data[None]                                                  # a single time step: a non-spatial dimension of length 1
+        kw["time"] = ["2020-01-01"]
     elif dims == "yxb":
         data = np.stack([data, data + 100], axis=-1)
     xx = wrap_xr(data, gbox, **kw)
